@@ -298,7 +298,48 @@ func c19One(i int, r *rand.Rand, res *core.Result) {
 		if bad && badMode == 2 {
 			src = "sec" // a wrong-typed field must be in the highest-priority source to make the merged value undecodable
 		}
-		if !bad {
+		if !bad && len(rendered[src]) > 0 && r.Intn(5) == 0 {
+			// the source loses all its keys (no marker can travel with that): every field it used to set falls
+			// back to the lower layers. Decided on order, not on time: the emptied state must be observed by dense
+			// polling; only if it is not within 10 s *and* a control update of the other source *and* a later
+			// marked update of this very source (same watch, hence delivered after the emptying) both arrive is
+			// it a violation; anything slower is inconclusive.
+			s.put(src, nil, false)
+			hist = append(hist, fmt.Sprintf("%s EMPTIED", src))
+			classes["source-emptied"] = true
+			other := map[string]string{"cm": "sec", "sec": "cm"}[src]
+			s.put(other, rendered[other], true)
+			if !s.await(other) {
+				res.Inconclusive = append(res.Inconclusive, fmt.Sprintf("case %d: control marker of %s never arrived", i, other))
+				return
+			}
+			good[src], rendered[src] = c19Doc{}, map[string]string{}
+			want := c19Effective(good["cm"], good["sec"])
+			seen := false
+			var last []string
+			for deadline := time.Now().Add(10 * time.Second); time.Now().Before(deadline) && !seen; {
+				got, err := c19Observed(s.cfgs)
+				res.Evaluations++
+				if err != nil {
+					viol("reader-error", "getters fail after %s was emptied: %v", src, err)
+					return
+				}
+				if last = c19Diff(want, got); len(last) == 0 {
+					seen = true
+				} else {
+					time.Sleep(50 * time.Microsecond)
+				}
+			}
+			s.put(src, nil, true) // only the marker: still sets no field
+			if !s.await(src) {
+				res.Inconclusive = append(res.Inconclusive, fmt.Sprintf("case %d: marker of %s never arrived after it was emptied", i, src))
+				return
+			}
+			if !seen {
+				viol("emptied-source-still-applied", "%s lost all its keys, but for 10 s readers kept getting values it used to set although later updates of both sources were delivered: %v; history: %s", src, last, strings.Join(tail(hist, 4), " | "))
+				return
+			}
+		} else if !bad {
 			doc := c19GenDoc(r)
 			data := doc.render(r)
 			s.put(src, data, true)
